@@ -142,6 +142,7 @@ class Harness:
         self.requires = [Clause("requires." + n, t) for n, t in c.requires.items()]
         self.ensures = [Clause("ensures." + n, t) for n, t in c.ensures.items()]
         self.raises = {k: (Clause("raises." + k, v) if isinstance(v, str) else v) for k, v in c.raises.items()}
+        self.on_raise = [Clause("ensures_on_raise." + n, t) for n, t in getattr(c, "ensures_on_raise", {}).items()]
         self.opaque = getattr(c, "native_opaque", {})
         self.setup = getattr(c, "native_setup", None)
         self.params = list(inspect.signature(self.fn).parameters)
@@ -163,8 +164,13 @@ class Harness:
         for g, shape in c.ghost.items():
             if ghost is not None and g in ghost:
                 gh[g] = bindings.to_native(shape, ghost[g], self.opaque)
+        for g, j in (ghost or {}).items():
+            if g.startswith("now_") and j is not None:
+                gh[g] = bindings.to_native(self.spec.Time, j, self.opaque)
         ns.update(args)
         ns.update(gh)
+        for an, aexpr in getattr(c, "aliases", {}).items():
+            ns[an] = eval(aexpr, ns)  # pylint: disable=eval-used
         # ghost sequences: G(0)=init, G(k+1)=step[prev, elem, k] folded over the real sequence
         for gname, gs in getattr(c, "ghost_seqs", {}).items():
             over = list(eval(gs["over"], ns))  # pylint: disable=eval-used
@@ -196,13 +202,14 @@ class Harness:
         try:
             for cl in self.ensures:
                 pres[cl.name] = cl.pre(ns)
-            for cl in self.raises.values():
+            for cl in list(self.raises.values()) + self.on_raise:
                 if isinstance(cl, Clause):
                     pres[cl.name] = cl.pre(ns)
         except Exception as e:  # pylint: disable=broad-except
             return {"status": "spec_error", "clause": "old()", "detail": f"{type(e).__name__}: {e}"}
         if self.setup is not None:
             self.setup(args)
+        unpatch = self.patch_clock(ns)
         exc = None
         result = None
         try:
@@ -211,6 +218,8 @@ class Harness:
                 result = asyncio.run(result)
         except BaseException as e:  # pylint: disable=broad-except
             exc = e
+        finally:
+            unpatch()
         if exc is not None:
             for cname, cl in self.raises.items():
                 if any(k.__name__ == cname for k in type(exc).__mro__):
@@ -219,6 +228,14 @@ class Harness:
                         ns["result"] = None
                         ok = bool(cl.post(ns, pres[cl.name]))
                     if ok:
+                        for oc in self.on_raise:
+                            ns["result"] = None
+                            try:
+                                if not oc.post(ns, pres[oc.name]):
+                                    return {"status": "failed", "clause": oc.name, "detail": f"after raising {cname}"}
+                            except Exception as e2:  # pylint: disable=broad-except
+                                return {"status": "failed", "clause": oc.name,
+                                        "detail": f"clause raised {type(e2).__name__}: {e2}"}
                         return {"status": "ok", "outcome": f"raised {cname} (allowed)"}
                     return {"status": "failed", "clause": f"raises.{cname}",
                             "detail": f"raised {type(exc).__name__} outside its allowed condition"}
@@ -237,6 +254,39 @@ class Harness:
             if not ok:
                 return {"status": "failed", "clause": cl.name, "result": repr(result)[:400]}
         return {"status": "ok", "result": repr(result)[:200]}
+
+    def patch_clock(self, ns):
+        """datetime.now() inside the function under test returns the ghost instants now_0, now_1, .."""
+        import datetime as _dt
+        import re
+        c = self.contract
+        texts = list(c.ensures.values()) + [v for v in c.raises.values() if isinstance(v, str)] + \
+            list(getattr(c, "ensures_on_raise", {}).values())
+        used = sorted({int(m) for t in texts for m in re.findall(r"\bnow_(\d+)\b", t)})
+        if not used:
+            return lambda: None
+        from native import bindings
+        nows = []
+        for k in range(max(used) + 1):
+            v = ns.get(f"now_{k}")
+            if v is None:
+                v = (nows[-1] if nows else bindings.EPOCH) + _dt.timedelta(seconds=1)
+                ns[f"now_{k}"] = v
+            nows.append(v)
+        state = {"i": 0}
+
+        class FakeDatetime(_dt.datetime):
+            @classmethod
+            def now(cls, tz=None):  # pylint: disable=arguments-differ
+                i = min(state["i"], len(nows) - 1)
+                state["i"] += 1
+                return nows[i]
+        mod = sys.modules[self.fn.__module__]
+        had = getattr(mod, "datetime", None)
+        if had is None:
+            return lambda: None
+        setattr(mod, "datetime", FakeDatetime)
+        return lambda: setattr(mod, "datetime", had)
 
     # ------------------------------------------------------------------
     def search(self, seed, budget_s, max_cases, model=None, size=3):
@@ -258,6 +308,10 @@ class Harness:
                 shape = c.self_shape if p == "self" else c.shapes.get(p)
                 inputs[p] = bindings.gen_json(shape, rng, seeds, size)
             ghost = {g: bindings.gen_json(s, rng, seeds, size) for g, s in c.ghost.items()}
+            t_us = 0
+            for kk in range(4):
+                t_us += rng.choice([0, 250000, 500000, 1000000, 3000000])
+                ghost[f"now_{kk}"] = {"time_us": t_us}
             r = self.run_case(inputs, ghost)
             if r["status"] == "precondition" or r["status"] == "unbuildable":
                 pre += 1
